@@ -27,7 +27,9 @@ RULE = (
     " x dynamics {none, BW, BW+ff, analytic} x {stable ids None/{}/one/all} x scalar mass x"
     " couplings x adapter extras {none, permutate, extra topology}; non-trivial = model"
     " with >= 2 amplitudes and >= 1 kinematic variable; distinct = distinct (reaction,"
-    " alignment, dynamics, switches)"
+    " alignment, dynamics, switches); size bounds: quick <= 40 transitions (axis-angle <= 16,"
+    " <= 40 with several topologies; DPD <= 24), thorough <= 200 transitions (axis-angle <= 48,"
+    " DPD <= 100)"
 )
 ASSUMPTIONS = [
     "numeric evaluation (oracle iv) is done for the first and the last switch combination"
@@ -181,6 +183,12 @@ def cases(tier, seed):
                     len(r.transitions) > (40 if n_topologies > 1 else 16) or n_final > 3):
                 continue  # left to the thorough tier (cost of unfolding the rotation sums)
             if tier == "quick" and align.startswith("dpd") and len(r.transitions) > 24:
+                continue
+            # thorough: size bounds for aligned models (unfolding the rotation sums of an
+            # axis-angle model with > 48 transitions takes tens of minutes per model)
+            if tier != "quick" and align == "aa" and len(r.transitions) > 48:
+                continue
+            if tier != "quick" and align.startswith("dpd") and len(r.transitions) > 100:
                 continue
             if n_final == 2 and align == "aa" and tier == "quick" and "spec" in rdesc and rdesc["spec"].get("init") == "pm":
                 continue
